@@ -47,6 +47,9 @@ def gen_cases(tier, seed):
     # ONE Flow object whose first run breaks off mid-stream (a step after the dump fails once) and which is run again
     for i in range({'quick': 4, 'thorough': 24}[tier]):
         yield {'family': 'retry_same_flow', 'idx': i, 'seed': seed}
+    # the caller's own Engine object (an in-memory database lives exactly as long as the engine's connection)
+    for i in range({'quick': 4, 'thorough': 24}[tier]):
+        yield {'family': 'caller_engine', 'idx': i, 'seed': seed}
 
 
 def norm_db(v, typ):
@@ -291,9 +294,57 @@ def run_retry(case):
                 sample={'config': cfg})
 
 
+def run_caller_engine(case):
+    import sqlalchemy
+    d = lab.df()
+    rng = boot.rng(case['seed'], 'C20', 'caller_engine', case['idx'])
+    counters = {'tables_compared': 0, 'flags_compared': 0}
+    where = rng.choice(['memory', 'memory', 'file'])
+    eng = sqlalchemy.create_engine('sqlite://' if where == 'memory' else 'sqlite:///' + os.path.abspath('own.db'))
+    modes = ['rewrite'] + [rng.choice(['append', 'update']) for _ in range(rng.randint(1, 3))]
+    batch = rng.choice([1, 2, 1000])
+    cfg = {'engine': 'caller-owned Engine object (%s)' % where, 'modes': modes, 'batch_size': batch}
+    viol, model, nid = [], {}, 0
+    F = [{'name': 'id', 'type': 'integer'}, {'name': 'v', 'type': 'string'}]
+    try:
+        for di, mode in enumerate(modes):
+            rows = [{'id': nid + i, 'v': 'd%d' % di} for i in range(rng.choice([1, 3, 5]))]
+            if mode == 'update' and model:
+                rows.append({'id': min(model), 'v': 'upd%d' % di})
+            nid += 10
+            out = lab.run([lab.source('res', F, rows), d.set_primary_key(['id']),
+                           d.dump_to_sql({'tbl': {'resource-name': 'res', 'mode': mode}}, engine=eng, batch_size=batch)])
+            if not out.ok:
+                viol.append({'kind': 'dump_failed', 'mech': 'caller_engine/dump_failed', 'config': cfg,
+                             'msg': '%r: dump %d (%s) failed: %s' % (cfg, di, mode, out.errstr())})
+                break
+            if mode == 'rewrite':
+                model = {}
+            model.update({r['id']: r['v'] for r in rows})
+            # read through the caller's engine, as the caller would
+            try:
+                with eng.connect() as con:
+                    tab = sorted(tuple(r) for r in con.execute(sqlalchemy.text('select id, v from tbl')).fetchall())
+            except Exception as e:
+                tab = 'unreadable: %s' % str(e)[:120]
+            counters['tables_compared'] += 1
+            if tab != sorted(model.items()):
+                viol.append({'kind': 'table_state', 'mech': 'caller_engine/table_state', 'config': cfg,
+                             'msg': '%r: after dump %d (%s) the caller reads %r through its engine, the dumps so far amount to %r'
+                             % (cfg, di, mode, tab if isinstance(tab, str) else tab[:6], sorted(model.items())[:6])})
+                break
+    finally:
+        eng.dispose()
+    return dict(nontrivial=True, violations=viol, counters=counters,
+                cov={'mode_seq': {'caller_engine/' + '>'.join(modes): 1}, 'config': {'caller_engine/' + where: 1}},
+                sample={'config': cfg})
+
+
 def run_case(case):
     if case['family'] == 'retry_same_flow':
         return run_retry(case)
+    if case['family'] == 'caller_engine':
+        return run_caller_engine(case)
     if case['family'] == 'same_flow':
         return run_same_flow(case)
     if case['family'] == 'one_resource_two_tables':
@@ -352,6 +403,11 @@ def run_case(case):
         cov['config']['later_step_stops_reading_early'] = 1
     nontrivial = False
     modes = []
+    # the resource declares its own missingValues (['NA']): an empty string is a value then, and the table holds it
+    own_missing = boot.rng(case['seed'], 'C20', 'ownmissing', case['idx']).random() < 0.2
+    cfg['schema_missingValues'] = ['NA'] if own_missing else None
+    if own_missing:
+        cov['config']['schema_declares_its_own_missingValues'] = 1
 
     def keyof(r):
         return tuple(r[k] for k in keys)
@@ -366,6 +422,7 @@ def run_case(case):
     built = {}
     for phase in (['plan', 'run'] if prebuilt else ['run']):
       rng.setstate(saved_rng)
+      omr = boot.rng(case['seed'], 'C20', 'ownmissing/cells', case['idx'])
       model, model2, modes = [], [], []
       cfg['dumps'] = []
       for di in range(ndumps):
@@ -394,7 +451,8 @@ def run_case(case):
             else:
                 continue
             used.add(keyof(r))
-            r.update({'name': rng.choice(['n%d-%d' % (di, i), 'żółć', None]),
+            r.update({'name': rng.choice(['n%d-%d' % (di, i), 'żółć', None]) if not (own_missing and
+                                                                                        omr.random() < 0.3) else '',
                       'val': rng.choice([1.5, -2.25, 0.0, None, 100.0]),
                       'flag': rng.choice([True, False, None])})
             if 'day' in typ:
@@ -463,6 +521,8 @@ def run_case(case):
                     f_['constraints'] = {'minimum': -1000}
             cov['config']['field_constraints_satisfied_by_the_rows'] = 1
         steps = [lab.source('res', sfields_, rows)]
+        if own_missing:
+            steps.append(d.update_schema('res', missingValues=['NA']))
         if use_pk:
             steps.append(d.set_primary_key(list(keys)))
             if pk_as_string:
